@@ -91,6 +91,80 @@ theorem C01_hash_enum :
     (Registry.spaces.find? (fun sp => sp.1 == "SuitCoseHashAlg")).map (·.2) = some (Typing.hashEnum Generated.schema) := by
   decide +kernel
 
+/-! ### every level of a hierarchy (`Spec.checkRec`)
+
+`Spec.checkRec` walks the finished file: the envelope itself and, recursively, every text-keyed member whose bytes are
+themselves a tag-107 envelope.  The three statements below reduce it to `C01_bytes` level by level: the recursive predicate is
+exactly `check1` of this level and the recursive predicate of each nested envelope (`C01_rec_step`); the depth index only
+bounds the walk (`C01_rec_mono`); hence what `create` writes satisfies the recursive predicate as soon as its nested
+envelopes do (`C01_rec_bytes`).  An inline dependency is embedded as exactly the bytes `create` returns for the child
+description (`C05_dep_inline`), to which `C01_bytes` / `C01_rec_bytes` apply again; a member supplied as ready-made bytes
+(hex text, file) is outside the property - `create` does not look into it.  Still evaluated rather than proved: that the
+text-keyed members of the output are exactly the values of the description's payload maps. -/
+
+/-- the nested envelopes of an envelope: its text-keyed byte-string members that are themselves tag-107 envelopes -/
+def nested (out : Bytes) : List Bytes :=
+  match Spec.envelopeMap out with
+  | some m => m.filterMap (fun e => match e with
+      | (.tstr _, .bstr v) => (match Spec.envelopeMap v with | some _ => some v | none => none)
+      | _ => none)
+  | none => []
+
+theorem all_nested (p : Bytes → Bool) (m : List (Cbor × Cbor)) :
+    m.all (fun e => match e with
+      | (.tstr _, .bstr v) => (match Spec.envelopeMap v with | some _ => p v | none => true)
+      | _ => true)
+    = (m.filterMap (fun e => match e with
+      | (.tstr _, .bstr v) => (match Spec.envelopeMap v with | some _ => some v | none => none)
+      | _ => none)).all p := by
+  induction m with
+  | nil => rfl
+  | cons e m ih =>
+    rw [List.all_cons, ih, List.filterMap_cons]
+    obtain ⟨k, v⟩ := e
+    cases k <;> try simp
+    cases v <;> try simp
+    rename_i ks vb
+    cases Spec.envelopeMap vb <;> simp
+
+/-- **one level unfolded**: the recursive predicate is this level's `check1` and the recursive predicate of every nested envelope -/
+theorem C01_rec_step (H : Spec.HashById) (fuel : Nat) (out : Bytes) :
+    Spec.checkRec H (fuel + 1) out = (Spec.check1 H out && (nested out).all (Spec.checkRec H fuel)) := by
+  unfold Spec.checkRec Spec.check1 nested
+  cases Spec.envelopeMap out with
+  | none => rfl
+  | some m => exact congrArg (fun b => (Spec.checkRoot H m && Spec.checkSevered H m && b)) (all_nested (Spec.checkRec H fuel) m)
+
+/-- the depth index only bounds the walk: a larger one never turns acceptance into rejection -/
+theorem C01_rec_mono (H : Spec.HashById) (fuel : Nat) : ∀ out, Spec.checkRec H fuel out = true → Spec.checkRec H (fuel + 1) out = true := by
+  induction fuel with
+  | zero => intro out h; simp [Spec.checkRec] at h
+  | succ f ih =>
+    intro out h
+    rw [C01_rec_step] at h ⊢
+    rw [Bool.and_eq_true] at h ⊢
+    refine ⟨h.1, ?_⟩
+    rw [List.all_eq_true] at *
+    intro v hv
+    exact ih v (h.2 v hv)
+
+/-- **Byte level, every level.** What `create` writes satisfies the recursive predicate to depth `d + 1` as soon as each of its
+nested envelopes satisfies it to depth `d` (same hypotheses as `C01_bytes`). -/
+theorem C01_rec_bytes (cx : Ctx) (hs : cx.schema = Generated.schema) (H : Spec.HashById)
+    (hH : ∀ e ∈ Typing.hashEnum cx.schema, H e.2 = some (cx.hashFn e.1))
+    (fuel : Nat) (o : Obj) (out : Bytes) (h : create cx fuel o = .ok out) (d : Nat) :
+    ∃ n, out = n.toBytes ∧ ((∀ v ∈ Typing.layerVals n, v.wf = true) →
+      (∀ v ∈ nested out, Spec.checkRec H d v = true) → Spec.checkRec H (d + 1) out = true) := by
+  obtain ⟨n, hn, hc⟩ := C01_bytes cx hs H hH fuel o out h
+  refine ⟨n, hn, fun hwf hnest => ?_⟩
+  rw [C01_rec_step, Bool.and_eq_true]
+  exact ⟨hc hwf, List.all_eq_true.mpr hnest⟩
+
+/-- an envelope without nested envelopes: the recursive predicate is `check1` -/
+theorem C01_rec_leaf (H : Spec.HashById) (out : Bytes) (h : nested out = []) :
+    Spec.checkRec H 1 out = Spec.check1 H out := by
+  rw [C01_rec_step, h]; simp
+
 /-! ### non-vacuity: a concrete description, created by the model over the extracted schema, meets every hypothesis of `C01_bytes`
 and the byte-level predicate holds of it (kernel evaluation; a toy hash keeps the evaluation small) -/
 
@@ -114,6 +188,10 @@ example : (match createTop cxToy toyDesc with | .ok out => Spec.check1 toyH out 
 /-- the toy digest table agrees with the toy hash function on every algorithm of the enumeration (evaluated on a sample input; the
 table is `find?` by identifier over an enumeration with pairwise different identifiers) -/
 example : (Typing.hashEnum cxToy.schema).all (fun e => (toyH e.2).map (fun f => f [1, 2, 3, 4, 5, 6]) == some (cxToy.hashFn e.1 [1, 2, 3, 4, 5, 6])) = true := by
+  decide +kernel
+
+/-- the toy envelope has no nested envelope, so the recursive predicate holds of it at depth 1 (kernel evaluation) -/
+example : (match createTop cxToy toyDesc with | .ok out => Spec.checkRec toyH 1 out && (nested out).isEmpty | .error _ => false) = true := by
   decide +kernel
 
 end SuitVerif.Props.C01
